@@ -1,5 +1,5 @@
 """Which contracts decide which property."""
-from . import indexing, bases, align, axes, metadata, reshape, dataset, missing, transform, join, wellformed, regroup, arith
+from . import indexing, bases, align, axes, metadata, reshape, dataset, missing, transform, join, wellformed, regroup, arith, interp
 
 GLOBAL_ASSUMPTIONS = [
     "NumPy implements the contracts in dverif/symnp.py (validated by sampling against the installed NumPy, never proved)",
@@ -44,6 +44,12 @@ PROPERTIES = {
         "contracts": [arith.ScalarOperation, arith.Operation],
         "level": "proof",
         "min_obligations": 3000,
+    },
+    "C18": {
+        "contracts": [interp.Interp1D, interp.InterpND],
+        "level": "other",
+        "min_obligations": 300,
+        "explanation": "proved (relative to numpy.interp, uninterpreted): the one-dimensional path -- one call numpy.interp(new, xs, ys, left, right) on the operand's (label, value) pairs sorted ascending, result on exactly the new axis, metadata, operand untouched; bounded stand-in: the N-d path (positions, floor / ceil, fraction times difference: nonlinear real arithmetic), interp_like and Dataset.interp_axis, compared fibre by fibre with numpy.interp on the real code.",
     },
     "C05": {
         "contracts": [wellformed.Construct, wellformed.Helpers, wellformed.AxesSetter, wellformed.AxisCache, wellformed.NestedDict, wellformed.MultiAxisCache] +
